@@ -10,6 +10,19 @@
 //!   verif-replay list                  the cases and the names they answer to
 //!
 //! The search is never the deciding step: the failed obligation is. It only supplies a concrete input.
+//!
+//! `search` / `replay` run the real code in a child process (`search-child` / `replay-child`): a mutated function
+//! that crashes (UB behind `unsafe`, abort) or does not return within 5 s is reported as the observed behaviour
+//! on the input the child was on (the generator is deterministic, the parent recomputes that input).
+//!
+//! Adding a twin (builders): one `Case` per function in a `t_<unit>.rs` module, registered in `registry()`:
+//! `names` = last path segment of the Verus obligation (+ names of private helpers only reachable through it),
+//! `expected` = the postcondition of the contract store as executable code over big integers (NEVER a call of
+//! the function under test; None outside the precondition / outside the domain where the contract claims the
+//! EIP value), `observed` = the call of the real function, rendered like the oracle renders its value,
+//! `boundary` + `random` = inputs. Known findings get their own case `<fn>__finding_<tag>` (finding: true).
+//! Then run `verif-replay selftest`: it must stay clean on the unchanged tree.
+//! The crate is built by vf/replay.py build() from Cargo.toml.in (@REPO@ = repository under check).
 #![allow(deprecated)]
 mod core;
 mod t_blob;
@@ -33,14 +46,17 @@ fn registry() -> Vec<Case> {
     v
 }
 
-fn cmd_search(name: &str, seed: u64) -> i32 {
+/// in the child process: the actual search
+fn cmd_search_child(name: &str, seed: u64) -> i32 {
+    install_guards();
     let reg = registry();
-    let hits: Vec<&Case> = reg.iter().filter(|c| c.names.iter().any(|n| n == name) || c.id == name).collect();
+    let hits: Vec<(usize, &Case)> = reg.iter().enumerate().filter(|(_, c)| c.names.iter().any(|n| n == name) || c.id == name).collect();
     if hits.is_empty() {
         return 0;
     }
     let per_ms = MAX_MS / hits.len() as u128;
-    for c in hits {
+    for (i, c) in hits {
+        CUR_CASE.store(i as u64, std::sync::atomic::Ordering::Relaxed);
         let (w, st) = search_case(c, seed, MAX_EVALS, per_ms);
         eprintln!("search {}: {} evaluated, {} outside the domain, {} boundary inputs", c.id, st.evaluated, st.skipped, st.boundary_inputs);
         if let Some(o) = w {
@@ -51,7 +67,101 @@ fn cmd_search(name: &str, seed: u64) -> i32 {
     0
 }
 
-fn cmd_replay(js: &str) -> i32 {
+/// `key=value` fields of a CRASH / HANG line
+fn field(line: &str, key: &str) -> Option<u64> {
+    line.split_whitespace().find_map(|t| t.strip_prefix(key).and_then(|r| r.strip_prefix('=')).and_then(|v| v.parse::<u64>().ok()))
+}
+
+fn abnormal(line: &str) -> Option<String> {
+    if line.starts_with("CRASH ") {
+        let sig = field(line, "sig").unwrap_or(0);
+        Some(format!("crash: signal {} ({}) inside the real function", sig, signal_name(sig)))
+    } else if line.starts_with("HANG ") {
+        Some(format!("no return from the real function within {} s (evaluation aborted)", HANG_SECONDS))
+    } else {
+        None
+    }
+}
+
+fn run_child(args: &[&str], timeout_s: u64) -> (String, String, Option<i32>) {
+    use std::io::Read;
+    let exe = std::env::current_exe().expect("current_exe");
+    let mut child = match std::process::Command::new(exe).args(args).stdout(std::process::Stdio::piped()).stderr(std::process::Stdio::piped()).spawn() {
+        Ok(c) => c,
+        Err(e) => return (String::new(), format!("cannot spawn the child process: {}", e), None),
+    };
+    let mut so = child.stdout.take().unwrap();
+    let mut se = child.stderr.take().unwrap();
+    let t1 = std::thread::spawn(move || {
+        let mut s = Vec::new();
+        let _ = so.read_to_end(&mut s);
+        String::from_utf8_lossy(&s).to_string()
+    });
+    let t2 = std::thread::spawn(move || {
+        let mut s = Vec::new();
+        let _ = se.read_to_end(&mut s);
+        String::from_utf8_lossy(&s).to_string()
+    });
+    let t0 = std::time::Instant::now();
+    let code = loop {
+        match child.try_wait() {
+            Ok(Some(st)) => break st.code(),
+            Ok(None) => {
+                if t0.elapsed().as_secs() > timeout_s {
+                    let _ = child.kill();
+                    let _ = child.wait();
+                    break None;
+                }
+                std::thread::sleep(std::time::Duration::from_millis(20));
+            }
+            Err(_) => break None,
+        }
+    };
+    (t1.join().unwrap_or_default(), t2.join().unwrap_or_default(), code)
+}
+
+/// parent: runs the search in a child process; a crash or hang of the real function becomes the witness
+fn cmd_search(name: &str, seed: u64) -> i32 {
+    let reg = registry();
+    if !reg.iter().any(|c| c.names.iter().any(|n| n == name) || c.id == name) {
+        return 0;
+    }
+    let seed_s = seed.to_string();
+    let (out, err, _code) = run_child(&["search-child", name, &seed_s], (MAX_MS / 1000) as u64 * 4 + 60);
+    eprint!("{}", err);
+    for line in out.lines() {
+        if line.starts_with("WITNESS ") {
+            println!("{}", line);
+            return 0;
+        }
+        if let Some(what) = abnormal(line) {
+            // the generator is deterministic: recompute the input the child was on, confirm it alone
+            let (Some(ci), Some(ph), Some(idx)) = (field(line, "case"), field(line, "phase"), field(line, "idx")) else { return 0 };
+            let Some(case) = reg.get(ci as usize) else { return 0 };
+            if field(line, "in_real") != Some(1) {
+                eprintln!("search {}: {} outside the call of the real function; no witness", case.id, line);
+                return 0;
+            }
+            let Some(args) = nth_input(case, seed, ph, idx) else { return 0 };
+            let Some(expected) = (case.expected)(&args) else { return 0 };
+            let o = Outcome { args, observed: what, expected };
+            let js = case.witness_json(&o, seed, idx + 1);
+            let (rout, _, rcode) = run_child(&["replay-child", &js], HANG_SECONDS + 30);
+            if rcode == Some(0) {
+                eprintln!("search {}: {} -- not reproduced on that input alone (memory corrupted by an earlier input?); no witness", case.id, line);
+                return 0;
+            }
+            let _ = rout;
+            println!("WITNESS {}", js);
+            return 0;
+        }
+    }
+    0
+}
+
+fn cmd_replay_child(js: &str) -> i32 {
+    install_guards();
+    CUR_PHASE.store(2, std::sync::atomic::Ordering::Relaxed);
     let j = match json_parse(js) {
         Ok(j) => j,
         Err(e) => {
@@ -101,6 +211,38 @@ fn cmd_replay(js: &str) -> i32 {
                 println!("agrees: the violation does not reproduce on this tree");
                 0
             }
+        }
+    }
+}
+
+/// parent: exit 1 if the violation reproduces (values differ, or the real function crashes / hangs), 0 if it agrees
+fn cmd_replay(js: &str) -> i32 {
+    let (out, err, code) = run_child(&["replay-child", js], HANG_SECONDS + 60);
+    let mut abn = None;
+    for line in out.lines() {
+        if let Some(what) = abnormal(line) {
+            abn = Some(what);
+        } else if !line.is_empty() {
+            println!("{}", line);
+        }
+    }
+    eprint!("{}", err);
+    if let Some(what) = abn {
+        println!("observed (real function): {}", what);
+        if let Ok(j) = json_parse(js) {
+            if let Some(e) = j.get("expected").and_then(|x| x.as_str()) {
+                println!("expected (oracle):        {}", e);
+            }
+        }
+        println!("REPRODUCED: the real function still fails on this input");
+        return 1;
+    }
+    match code {
+        Some(c) => c,
+        None => {
+            println!("observed (real function): the child process was killed (signal or time-out)");
+            println!("REPRODUCED: the real function still fails on this input");
+            1
         }
     }
 }
@@ -160,7 +302,12 @@ fn main() {
             let seed = a.get(3).and_then(|s| s.parse::<u64>().ok()).unwrap_or(0);
             cmd_search(&a[2], seed)
         }
+        Some("search-child") if a.len() >= 3 => {
+            let seed = a.get(3).and_then(|s| s.parse::<u64>().ok()).unwrap_or(0);
+            cmd_search_child(&a[2], seed)
+        }
         Some("replay") if a.len() >= 3 => cmd_replay(&a[2]),
+        Some("replay-child") if a.len() >= 3 => cmd_replay_child(&a[2]),
         Some("selftest") => cmd_selftest(a.get(2).and_then(|s| s.parse::<u128>().ok()).unwrap_or(2000)),
         Some("list") => {
             for c in registry() {
